@@ -13,7 +13,7 @@
 
     CASE <i>
     MJ.B / MJ.D k …   BMV.Json.jsoner(BM) applied to L                       (compared with J)
-    MX.B / MX.D k …   BMV.Json.dejsoner(BM) applied to J, registry threaded    (compared with X)
+    MX.B / MX.D k …   BMV.Json.dejsoner / loadBM (= Dejsoner + Init) applied to J, registry threaded (compared with X)
                       from case to case exactly as the loading process does
     P resolvable=<0|1> sovalid=<0|1> loadeq=<0|1|-> nilops=<n> nilsos=<n> counts=<0|1>
                       the property evaluated by the model's definitions on the IMPLEMENTATION's
@@ -156,11 +156,13 @@ def parseBond (s : String) : Bond :=
 
 def fmtBond (b : Bond) : String := s!"{b.mapTo}.{b.resId}.{b.extId}"
 
-def parseSlinks (s : String) : List (List Int) :=
-  (countList s "|").map fun x => if x = "" then [] else (x.splitOn ".").map int!
+def parseSlinks (s : String) : Option (List (List Int)) :=
+  if s = "nil" then none else
+  some ((countList s "|").map fun x => if x = "" then [] else (x.splitOn ".").map int!)
 
-def fmtSlinks (l : List (List Int)) : String :=
-  fmtList (l.map fun x => ".".intercalate (x.map toString)) "|"
+def fmtSlinks : Option (List (List Int)) → String
+  | none => "nil"
+  | some l => fmtList (l.map fun x => ".".intercalate (x.map toString)) "|"
 
 def fmtInts (l : List Int) : String := fmtList (l.map toString) ","
 
@@ -173,7 +175,7 @@ structure BHead (β : Type) where
   iout : List Bond
   links : List Int
   sos : List β
-  slinks : List (List Int)
+  slinks : Option (List (List Int))
 
 def parseHead {β : Type} (fs : List String) (pso : String → β) : BHead β :=
   { rsize := nat! (field fs "rsize"), processors := (countList (field fs "procs") ",").map int!,
@@ -184,7 +186,7 @@ def parseHead {β : Type} (fs : List String) (pso : String → β) : BHead β :=
     sos := (countList (field fs "sos") ";").map pso, slinks := parseSlinks (field fs "slinks") }
 
 def fmtHead (p : String) (ndom : Nat) (rsize : Nat) (procs : List Int) (inputs outputs : Int)
-    (iin iout : List Bond) (links : List Int) (sos : List String) (sl : List (List Int)) : String :=
+    (iin iout : List Bond) (links : List Int) (sos : List String) (sl : Option (List (List Int))) : String :=
   s!"{p}.B rsize={rsize} ndom={ndom} procs={fmtInts procs} inputs={inputs} outputs={outputs} " ++
   s!"iin={fmtList (iin.map fmtBond) ";"} iout={fmtList (iout.map fmtBond) ";"} links={fmtInts links} " ++
   s!"sos={fmtList sos ";"} slinks={fmtSlinks sl}"
@@ -243,7 +245,7 @@ def finish (s : St) (c : Case) : St × List String :=
       let j : BMJson := { rsize := h.rsize, domains := c.jD, processors := h.processors,
                           inputs := h.inputs, outputs := h.outputs, iin := h.iin, iout := h.iout,
                           links := h.links, sos := h.sos, slinks := h.slinks }
-      let r := dejsonerBM s.reg j
+      let r := loadBM s.reg j      -- Dejsoner followed by Init, as the tools load a file
       let b := r.2
       (r.1, fmtHead "MX" b.domains.length b.rsize b.processors b.inputs b.outputs b.iin b.iout b.links
               (b.sos.map fmtSO) b.slinks ::
@@ -267,7 +269,7 @@ def finish (s : St) (c : Case) : St × List String :=
     | some l, some x =>
       b2s (dEq && x.rsize == l.rsize && x.processors == l.processors && x.inputs == l.inputs &&
         x.outputs == l.outputs && x.iin == l.iin && x.iout == l.iout && x.links == l.links &&
-        x.sos == l.sos && x.slinks == l.slinks)
+        x.sos == l.sos && x.slinks.getD [] == l.slinks.getD [])
     | none, none => b2s dEq
     | _, _ => "0"
   let nilops := (c.xD.map fun d => (d.ops.filter Option.isNone).length).sum
@@ -277,7 +279,7 @@ def finish (s : St) (c : Case) : St × List String :=
     (c.xD.map (·.ops.length)) == (c.jD.map (·.op.length)) &&
     (match c.jB, c.xB with
      | some j, some x => x.sos.length == j.sos.length && x.links == j.links && x.iin == j.iin &&
-         x.iout == j.iout && x.slinks == j.slinks && x.processors == j.processors
+         x.iout == j.iout && (j.slinks.isNone || x.slinks == j.slinks) && x.processors == j.processors
      | none, none => true
      | _, _ => false)
   let _ := xModel
